@@ -169,6 +169,11 @@ def buf_flat(kind, chunks, ops):
                     out.extend(f)
             elif b[0] == "r":
                 out += [5, pos, b[1]]
+            elif b[0] == "x" and len(b) > 2 and b[2]:
+                out += [11, pos, b[1], len(b[2])]
+                for f in b[2]:
+                    out.append(len(f))
+                    out.extend(f)
             elif b[0] == "x":
                 out += [6, pos, b[1]]
             else:
@@ -186,6 +191,11 @@ def buf_flat(kind, chunks, ops):
                 out.extend(f)
         elif o[0] == "r":
             out += [0, o[1]]
+        elif o[0] == "x" and len(o) > 2 and o[2]:
+            out += [10, o[1], len(o[2])]
+            for f in o[2]:
+                out.append(len(f))
+                out.extend(f)
         elif o[0] == "x":
             out += [1, o[1]]
         elif o[0] == "u":
@@ -257,6 +267,7 @@ class BufRun:
                         wrapped.midfeeds = [bytes(f) for f in o[2]] if len(o) > 2 else []
                         call = s.receive(o[1])
                     elif t == "x":
+                        wrapped.midfeeds = [bytes(f) for f in o[2]] if len(o) > 2 else []
                         call = s.receive_exactly(o[1])
                     else:
                         wrapped.midfeeds = [bytes(f) for f in o[3]] if len(o) > 3 else []
@@ -400,21 +411,34 @@ class BufRun:
             elif t == "x":
                 n = o[1]
                 if n >= 0:
+                    if midfed:
+                        flags.add("feed_data_during_receive_exactly")
                     if code == 0:
                         if len(val) != n:
-                            mon.append(f"op {idx}: receive_exactly({n}) returned {len(val)} bytes")
+                            mon.append(f"op {idx}: receive_exactly({n}) returned {len(val)} bytes"
+                                       + (f" (data was fed during its wait: {fed_call!r})" if midfed else ""))
                         if len(pieces) > 1:
                             flags.add("exactly_several_reads")
+                        # exactly the first n bytes in ARRIVAL order (buffered, then per fetch: fed data, chunk); the
+                        # rest of what arrived stays buffered, in order
+                        if val != (buf0 + arr_call)[:n] or buf1 != (buf0 + arr_call)[n:]:
+                            mon.append(f"op {idx}: receive_exactly({n}) with buffer {buf0!r} and arrivals {arr_call!r} "
+                                       f"(fed {fed_call!r}) returned {val!r} and left {buf1!r}: not the first {n} bytes "
+                                       f"in arrival order followed by the rest")
+                        if midfed and len(buf0) + len(got) + len(fed_call) > n:
+                            flags.add("exactly_fed_data_beyond_count")
                     elif code == 2:
                         if len(logical0) >= n:
                             mon.append(f"op {idx}: receive_exactly({n}) raised IncompleteRead with {len(logical0)} bytes available")
+                        if rest1:
+                            mon.append(f"op {idx}: receive_exactly({n}) raised IncompleteRead although the wrapped stream still holds {rest1!r}")
                         flags.add("incomplete_read")
                         if got:
                             flags.add("failed_call_keeps_received_bytes_in_buffer")
                     elif not (code == 6 and cancel_k is not None):
                         mon.append(f"op {idx}: receive_exactly({n}) failed with code {code}")
-                    if code == 0 and len(logical0) < n:
-                        mon.append(f"op {idx}: receive_exactly({n}) succeeded with only {len(logical0)} bytes in the stream")
+                    if code == 0 and len(logical0) + len(fed_call) < n:
+                        mon.append(f"op {idx}: receive_exactly({n}) succeeded with only {len(logical0) + len(fed_call)} bytes in the stream")
                 else:
                     # "exactly n bytes or IncompleteRead": no byte string has a negative length, the call must fail
                     if code == 0:
@@ -642,6 +666,26 @@ def buf_receive_feed_exhaustive(maxlen):
                                     yield kind, ch2, [("c", 2, ("r", n, fl)), ("r", 9)]
 
 
+def buf_exactly_feed_exhaustive(maxlen):
+    """receive_exactly(n) with feed_data during its waits: streams up to maxlen x all chunkings (so that the chunk a byte
+    stream hands out is exactly / less than / an object item more than the `remaining` computed before the wait) x both
+    kinds x with or without data already buffered x n 1..4 x every list of 1 or 2 feeds, alone, cancelled at the 2nd
+    fetch, or followed by one call that shows the order of what is left"""
+    feeds = [[f] for f in MID_FEEDS[1:]] + [[f, g] for f in MID_FEEDS for g in MID_FEEDS[1:]]
+    befores = [None, ("f", [B])]
+    afters = [None, ("r", 9), ("x", 2)]
+    for ln in range(0, maxlen + 1):
+        for data in itertools.product((A, B, D1, D2), repeat=ln):
+            for ch in chunkings(list(data)):
+                for kind in (0, 1):
+                    for b in befores:
+                        for n in (1, 2, 3, 4):
+                            for fl in feeds:
+                                for a in afters:
+                                    yield kind, ch, [o for o in (b, ("x", n, fl), a) if o is not None]
+                                yield kind, ch, [o for o in (b, ("c", 2, ("x", n, fl)), ("r", 9)) if o is not None]
+
+
 def buf_cancel_exhaustive(maxlen):
     """calls in a cancel scope: cancelled before the call (k=0), at their first or second fetch; with or without data
     already buffered; alone or followed by a call that shows what is left"""
@@ -690,7 +734,12 @@ def buf_random(rng, n):
                 else:
                     ops.append(("r", n))
             elif r < 0.55:
-                ops.append(("x", rng.choice([0, 1, 2, 3, 4, 6, 9, 20, -1, -2])))
+                n = rng.choice([0, 1, 2, 3, 4, 6, 9, 20, -1, -2])
+                if rng.random() < 0.35:
+                    ops.append(("x", n, [[rng.choice(alphabet) for _ in range(rng.choice([0, 1, 2, 3, 5]))]
+                                         for _ in range(rng.choice([1, 2, 3]))]))
+                else:
+                    ops.append(("x", n))
             elif r < 0.9:
                 m = rng.choice([0, 1, 2, 3, 4, 5, 8, 12, 40, -1])
                 if rng.random() < 0.4:
@@ -1105,7 +1154,7 @@ def check(tier: str) -> int:
     rep = core.Report("C16", tier)
     rep.assumptions = [a for a in core.TRUSTED_BASE_COMMON if "asyncio Task" not in a and "SchedLoop" not in a] + [
         "correspondence harness (Python): fake transports, canonicalisation, generators, monitors - differential testing, bounds but does not remove the model/code gap",
-        "model pure/Buffered.v hand-written from streams/buffered.py:30-172 (HEAD incl. fixes F27-F29); the wrapped stream is data (chunk list): a byte stream hands out min(max_bytes,|chunk|) bytes of its next chunk, an object stream whole items (possibly empty); concurrency = feed_data() by another task during the waits of receive and receive_until (one feed per fetch); cancellation of a call before it starts or at any fetch; a second concurrent reader, feeds during the waits of receive_exactly and aclose() are not modelled",
+        "model pure/Buffered.v hand-written from streams/buffered.py:30-172 (HEAD incl. fixes F27-F29); the wrapped stream is data (chunk list): a byte stream hands out min(max_bytes,|chunk|) bytes of its next chunk, an object stream whole items (possibly empty); concurrency = feed_data() by another task during the waits of receive, receive_exactly and receive_until (one feed per fetch); cancellation of a call before it starts or at any fetch; a second concurrent reader and aclose() are not modelled",
         "model pure/Text.v hand-written from streams/text.py:33-108; CPython 3.12 codecs (strict) are a modelled environment: utf-8/latin-1 automata proved against the encoders in Coq, utf-16/utf-32 (+BOM handling, -le/-be) validated by this harness against `codecs` only; native byte order little endian",
     ]
     if sys.byteorder != "little":
@@ -1167,6 +1216,15 @@ def check(tier: str) -> int:
                        "wrapped": ["byte stream", "object stream"], "n": "1..3",
                        "feeds": "every list of 1 or 2 feeds over '' a ; \\n a;b ;\\n (one per fetch)",
                        "then": "nothing | receive(9) | receive_exactly(2) | receive_until(';', 9); cancelled at the 2nd fetch"})
+        xf_len = 3 if quick else 4
+        for kind, ch, ops in buf_exactly_feed_exhaustive(xf_len):
+            sb.add(await BufRun(kind, ch, ops).run())
+            n_ex += 1
+        bounds.append({"family": "feed_data during the waits of receive_exactly", "stream_length_upto": xf_len,
+                       "chunkings": "all", "wrapped": ["byte stream", "object stream"], "n": "1..4",
+                       "before": "nothing | feed_data(b)",
+                       "feeds": "every list of 1 or 2 feeds over '' a ; \\n a;b ;\\n (one per fetch)",
+                       "then": "nothing | receive(9) | receive_exactly(2); cancelled at the 2nd fetch, then receive(9)"})
         can_len = 2 if quick else 3
         for kind, ch, ops in buf_cancel_exhaustive(can_len):
             sb.add(await BufRun(kind, ch, ops).run())
